@@ -50,6 +50,14 @@ CHECKS = {
              text="Dry-run part of C19 on the in-process harness: tree and log meaning before/after, prediction equals the reference (superset with restat).  The read-only tools of the real binary are checked by the H2 part when present (evidence field 'tools')."),
  "C18": dict(cat="model_checking", ref="6.C18", tech="clean scopes as TLA+ set comprehensions (RefTrace.tla CleanScope) checked by TLC on executions of the real Cleaner (all / targets / rules / -g / -n / cleandead) over generated graphs, tree states and manifest variants",
              text="For every generated graph x tree state x scope: removed files lie inside the scope and outside sources / phony names / (without -g) generator outputs, every existing file of the scope is removed (dry run: counted, nothing removed), and the following build re-creates everything (C01 monitor on the same trace)."),
+ "C12": dict(cat="model_checking", ref="6.C12", engine="function-reference", tech="TLA+ reference evaluator over manifest ASTs (Manifest.tla: scopes, immediate/late expansion, include vs subninja, constraints); TLC evaluates it on seed-sampled programs of a bounded grammar, renders them to text and exports (files, expected graph or error); each program (in two layouts) is parsed by the real ManifestParser and the dumped State compared",
+             text="One TLC state per sampled program (the reference is total and classifies every rejection); every program is an implementation test: verdict, every edge's outputs, input kinds, validations, rule, pool, evaluated command/description/depfile/rspfile/rspfile_content/flags/dyndep, defaults and pools must equal the reference; rejections must carry a file:line diagnostic.",
+             note="Trusted: TLC; Manifest.tla as the reading of the manual (two readings fixed in DESIGN.md 6.C12); paths/values come from a fixed vocabulary whose canonical and shell-quoted forms are tabulated in the spec; character-level lexing beyond the $-escapes used by the renderer is covered by C13 only for robustness."),
+ "C13": dict(cat="exploration", ref="6.C13", engine="sanitizer-exploration", tech="bounded-exhaustive token strings of the alphabets in spec/Fuzz.tla and seeded mutations of TLC-rendered manifests and real logs, run through ASan+UBSan builds of the real parsers/loaders with a watchdog (harness/c13.cc)",
+             text="Exploration, not model checking: TLA+ cannot express memory safety; the specification contributes the input spaces (token alphabets and bounds, valid seeds rendered from Manifest.tla, logs from the writer models). Every input must end in 'processed' or 'reported an error'; a sanitizer report, signal, uncaught exception or watchdog timeout is a violation.",
+             note="Trusted: clang ASan/UBSan (alignment check off, leak check off), the watchdog. Bounded: alphabets and token counts in the evidence."),
+ "C20": dict(cat="model_checking", ref="6.C20", tech="Status-interface call sequences of real engine executions (pools incl. console, failures, restat pruning, dyndep additions, interrupts) validated by TLC against the counter monitors of RefTrace.tla",
+             text="Counter clauses of C20 over every schedule of the generated scenarios: started <= total, finished <= started at every call, every started command reported finished unless interrupted, finished = started = total after success. (Output-stream clauses: see evidence field 'output_stream'.)"),
 }
 
 NOT_YET = "check not built yet (work in progress; see DESIGN.md section 9)"
@@ -69,6 +77,8 @@ def main():
         "kind_free_text": "TLC exports scenario families (spec/Families.tla); harness/h1.cc runs them on the real classes under all completion orders; TLC validates every execution against spec/RefTrace.tla (monitors from spec/NinjaRef.tla)"},
        {"name": "function-reference", "path": "lib/fnlib.py", "serves_properties": [i for i in ids if CHECKS.get(i, {}).get("engine") == "function-reference"],
         "kind_free_text": "TLA+ reference function + laws model-checked by TLC over a bounded input space; every enumerated input exported by TLC and replayed on the real function (harness/fn.cc); recorded random calls validated by a TLC trace spec"},
+       {"name": "sanitizer-exploration", "path": "harness/c13.cc", "serves_properties": ["C13"],
+        "kind_free_text": "input spaces defined in spec/Fuzz.tla, enumerated/mutated by harness/c13.cc against ASan+UBSan builds of the real readers"},
        {"name": "log-model", "path": "lib/checks.py", "serves_properties": ["C08", "C09"],
         "kind_free_text": "byte-level TLA+ models of the two log formats model-checked by TLC; operation sequences exported by TLC and executed on the real log classes with real files (harness/logh.cc); every execution validated by a TLC trace spec"}],
      "checks": [],
